@@ -24,8 +24,22 @@ def load_ledger(prop):
     return None
 
 
+_native_cache = {}
+
+
 def run_native(script, timeout=300):
-    """Run a replay script against the real code (nutils is installed editable from /repo/src)."""
+    """Run a replay script against the real code (nutils is installed editable from /repo/src).
+    The same script against the same tree is run once per check (many paths of one contract share a replay recipe)."""
+    key = (script, os.environ.get('VERIF_REPO', '/repo'))
+    if key in _native_cache:
+        return _native_cache[key]
+    r = _run_native(script, timeout)
+    if r[0] != -1:
+        _native_cache[key] = r
+    return r
+
+
+def _run_native(script, timeout=300):
     env = dict(os.environ)
     env.pop('PYTHONPATH', None)
     env['PYTHONDONTWRITEBYTECODE'] = '1'
